@@ -427,7 +427,10 @@ func (m *Machine) tick() (bool, error) {
 		v := m.popValue()
 		switch v := v.(type) {
 		case machine.Asset:
-			m.Balances[a][v] = machine.Zero
+			// saving everything leaves nothing to spend; a balance that is already negative stays as it is
+			if m.Balances[a][v].OrZero().Gt(machine.Zero) {
+				m.Balances[a][v] = machine.Zero
+			}
 		case machine.Monetary:
 			if v.Amount.Ltz() {
 				return true, fmt.Errorf(
